@@ -206,19 +206,19 @@ def interleavings(work, cfgname, limit, rng):
     return r, out, total
 
 
-def tunnel_steps(k, token, variant):
+def tunnel_steps(k, token, variant, name="H1"):
     caps = 2 if token else 0
     port = ["PA", "PB", "PE"][k % 3]
     other = ["PA", "PB", "PE"][(k + 1) % 3]
     steps = [{"k": "hs", "cls": "valid", "caps": caps, "major": 1 + k, "minor": k},
              {"k": "create", "cls": "valid", "cookie": "good" if token else "none"},
              {"k": "auth", "cls": "valid"},
-             {"k": "chan", "cls": "valid", "name": ["H1"], "port": port},
+             {"k": "chan", "cls": "valid", "name": [name], "port": port},
              {"k": "data", "cls": "valid", "n": 20 + k},
              {"k": "hostsend", "n": 100 + 10 * k},
              {"k": "data", "cls": "valid", "n": 300 + k}]
     if variant == "cross-host":
-        steps[3] = {"k": "chan", "cls": "valid", "name": ["H1"], "port": other}   # another tunnel's host: this tunnel's token does not cover it
+        steps[3] = {"k": "chan", "cls": "valid", "name": [name], "port": other}   # another tunnel's host: this tunnel's token does not cover it
     elif variant == "bad-cookie" and token:
         steps[1] = {"k": "create", "cls": "valid", "cookie": "bad"}
     elif variant == "out-of-order":
@@ -233,10 +233,11 @@ def c07(work, tier, seed):
     r2, il2, tot2 = interleavings(work, "MC_Interleave2", 120 if tier == "quick" else 1500, rng)
     r3, il3, tot3 = interleavings(work, "MC_Interleave3", 40 if tier == "quick" else 600, rng)
     scripts = []
-    hosts = [["H1", ":", "PA"], ["H1", ":", "PB"], ["H1", ":", "PE"]]
+    hosts = hosts_ip = [["H1", ":", "PA"], ["H1", ":", "PB"], ["H1", ":", "PE"]]
 
-    def mk(schedule, ntun, idx, big=False, contend=None, samelogin=False):
+    def mk(schedule, ntun, idx, big=False, contend=None, samelogin=False, byname=False):
         token = idx % 3 != 2 or samelogin
+        hosts = hosts_ip if not byname else [["HL", ":", "PA"], ["HL", ":", "PB"], ["HL", ":", "PE"]]
         cfg = {"tokenAuth": token, "smartCard": False, "auth": "openid" if token else "ntlm", "sel": "unsigned" if token else "roundrobin", "hosts": hosts, "verifyIp": True, "idle": 0}
         tunnels = []
         for k in range(ntun):
@@ -244,12 +245,12 @@ def c07(work, tier, seed):
             if samelogin and k < 2:
                 variant = "ok"
             user = ("user%d" % (k + 1)) if token else ["nuser1", "nuser2"][k % 2]
-            tun = {"user": user, "hostName": ["H1"], "hostPort": ["PA", "PB", "PE"][k % 3], "entry": hosts[k % 3],
+            tun = {"user": user, "hostName": ["HL"] if byname else ["H1"], "hostPort": ["PA", "PB", "PE"][k % 3], "entry": hosts[k % 3],
                    "mintXFF": "10.0.0.%d" % (k + 1), "useXFF": "10.0.0.%d" % (k + 1)}
             if samelogin and k < 2:
                 # the first two tunnels present files that one logged-in session downloaded for two different hosts
                 tun = dict(tun, user="user1", loginGroup="g%d" % idx, mintXFF="10.0.0.1", useXFF="10.0.0.1")
-            tunnels.append({"transport": ["ws", "legacy"][(idx + k) % 2], "tun": tun, "steps": tunnel_steps(k, token, variant)})
+            tunnels.append({"transport": ["ws", "legacy"][(idx + k) % 2], "tun": tun, "steps": tunnel_steps(k, token, variant, "HL" if byname else "H1")})
         sc = {"id": "m%05d" % len(scripts), "origin": "interleave:%d" % ntun, "cfg": cfg, "tunnels": tunnels, "schedule": schedule}
         if contend:
             sc["contend"] = contend
@@ -276,6 +277,10 @@ def c07(work, tier, seed):
     # third tunnel of somebody else): each is bound to the host of its own token
     for i, p in enumerate(il2[:8] + il3[:8] if tier == "quick" else il2[:60] + il3[:60]):
         mk(p, 2 + (max(p) == 2), 1000 + i, samelogin=True)
+    # the hosts are named (one DNS name, three ports = three different hosts) instead of given by address: every
+    # tunnel still gets to the endpoint it asked for
+    for i, p in enumerate(il2[:6] + il3[:6] if tier == "quick" else il2[:40] + il3[:40]):
+        mk(p, 2 + (max(p) == 2), 3 * i + (i % 2), byname=True)
     # many tunnels at once, seeded random schedules
     for i in range(6 if tier == "quick" else 40):
         n = [8, 16, 32, 64][i % 4] if tier == "thorough" else [8, 16][i % 2]
